@@ -148,7 +148,9 @@ def run(prop, tier, replay, make_plan, level="model_checking", panic_props=("C01
             plan.gen_states += r["distinct"]
             plan.gen_transitions += r["generated"]
             design_info[tag] = {"EqlogEval_states": r["distinct"], "bounds": {k: x for k, x in kw.items() if k != "workers"},
-                                "plan_rules": r.get("plan_rules", 0), "violated": r["violated"], "counterexamples_replayed": 0}
+                                "plan_rules": r.get("plan_rules", 0), "violated": r["violated"], "counterexamples_replayed": 0,
+                                "action_coverage": r.get("actions", {}),
+                                "actions_never_taken": sorted(a for a, c in r.get("actions", {}).items() if c[1] == 0)}
             if r["violated"]:
                 for cx in r["prints"].get("CEX", [])[:8]:
                     steps = cex_steps(cx, sig)
